@@ -185,6 +185,10 @@ fn build_pair(r: &mut Rng, out: &mut String, force_relation: bool) -> &'static s
     writeln!(out, "new b1").unwrap();
     let mode = if r.chance(1, 14) {
         95 // complements
+    } else if r.chance(1, 14) {
+        201 // array chunk against a bitset chunk that misses exactly one of its values
+    } else if r.chance(1, 16) {
+        200 // many chunks
     } else if force_relation {
         40 + r.below(35)
     } else {
@@ -367,6 +371,86 @@ fn build_pair(r: &mut Rng, out: &mut String, force_relation: bool) -> &'static s
             let extra = *r.pick(&[0u64, 0, 1]); // 1: one value belongs to both sides
             writeln!(out, "insert_range b0 in:{} ex:{}", bs, bs + cut).unwrap();
             writeln!(out, "insert_range b1 in:{} in:{}", bs + cut + gap - extra.min(cut + gap), bs + 65535).unwrap();
+            "b1"
+        }
+        // many chunks on one side (33..70 tiny ones), a few on the other: chunk counts that differ by more than 16x,
+        // right-hand chunks identical to / overlapping / absent from the left, adjacent in the left's chunk list, at
+        // its first and last positions (paths chosen by the relative number of chunks; cursors that resume a search)
+        200 => {
+            let n = r.range(33, 70);
+            let k0 = *r.pick(&[0u64, 0, 3, 0xFFFF - n]);
+            let mut big = String::new();
+            let mut vals: Vec<(u64, Vec<u64>)> = Vec::new();
+            for i in 0..n {
+                let k = k0 + i;
+                let mut vs = Vec::new();
+                for _ in 0..r.range(1, 3) {
+                    vs.push((k << 16) + *r.pick(&[0u64, 1, 5, 63, 64, 4095, 65535]));
+                }
+                vs.sort_unstable();
+                vs.dedup();
+                for v in &vs {
+                    write!(big, " {}", v).unwrap();
+                }
+                vals.push((k, vs));
+            }
+            let nsmall = r.range(1, 4);
+            let at = match r.below(4) {
+                0 => 0,
+                1 => n - nsmall.min(n),
+                _ => r.below(n - nsmall + 1),
+            };
+            let mut small = String::new();
+            for j in 0..nsmall {
+                let (k, vs) = &vals[(at + j) as usize];
+                match r.below(5) {
+                    0 | 1 => {
+                        for v in vs {
+                            write!(small, " {}", v).unwrap(); // identical chunk: cancels in xor / sub, stays in and
+                        }
+                    }
+                    2 => write!(small, " {} {}", vs[0], (k << 16) + 7).unwrap(), // overlapping
+                    3 => write!(small, " {}", (k << 16) + 9).unwrap(),           // disjoint inside the same chunk
+                    _ => {}                                                       // not on the right at all
+                }
+            }
+            if r.chance(1, 3) {
+                write!(small, " {}", ((k0 + n) << 16).min(u32::MAX as u64)).unwrap(); // a chunk beyond the left's last
+            }
+            let (l, rr) = if r.chance(2, 3) { ("b0", "b1") } else { ("b1", "b0") };
+            writeln!(out, "from_iter {}{}", l, big).unwrap();
+            writeln!(out, "from_iter {}{}", rr, small).unwrap();
+            "b1"
+        }
+        // near-subset across representations: b0 = an array chunk; b1 = the same values inside a bitset chunk, minus ONE value
+        // of b0 (its last / first / a middle one, i.e. in the last / first / an inner 64-bit word the array touches) or
+        // minus none: is_subset must notice a single missing value wherever it sits
+        201 => {
+            let k = *r.pick(&KEYS);
+            let bs = base(k);
+            let mut vals: Vec<u64> = Vec::new();
+            let n = *r.pick(&[1u64, 2, 5, 40, 300]);
+            let mut v = bs + r.below(3000);
+            for _ in 0..n {
+                vals.push(v);
+                v += *r.pick(&[1u64, 2, 63, 64, 65, 200]);
+            }
+            let s: Vec<String> = vals.iter().map(|x| x.to_string()).collect();
+            writeln!(out, "from_iter b0 {}", s.join(" ")).unwrap();
+            writeln!(out, "clone b1 b0").unwrap();
+            // the padding that makes b1's chunk a bitset: a block that covers all of b0's values, or none of them
+            let last = *vals.last().unwrap();
+            if r.chance(1, 2) {
+                writeln!(out, "insert_range b1 in:{} in:{}", bs, (last + 5000).min(bs + 65535)).unwrap();
+            } else {
+                writeln!(out, "insert_range b1 in:{} in:{}", (last + 100).min(bs + 60000), (last + 100).min(bs + 60000) + 5000).unwrap();
+            }
+            match r.below(5) {
+                0 | 1 => writeln!(out, "remove b1 {}", last).unwrap(),
+                2 => writeln!(out, "remove b1 {}", vals[0]).unwrap(),
+                3 => writeln!(out, "remove b1 {}", vals[vals.len() / 2]).unwrap(),
+                _ => {}
+            }
             "b1"
         }
         // one side empty (or both)
